@@ -36,7 +36,15 @@ STL_PROGRAMS = {
     'ns-macro': 'ns mine {\n  def twice c {\n    stl.output_char c\n    stl.output_char c\n  }\n}\nstl.startup\nmine.twice \'z\'\nstl.loop\n',
     'unused-label-warning': 'def warn_me unused_param {\n;\n}\nstl.startup\nwarn_me 3\nstl.loop\n',
 }
+def _nest(k):
+    # k nested macro calls: assembles iff the macro-expansion depth limit (and nothing left over from earlier calls) allows k
+    return ''.join('def n%d {\n%s\n}\n' % (i, ('n%d' % (i + 1)) if i + 1 < k else ';') for i in range(k)) + 'n0\nl: ;l\n'
+
+
 NOSTL_PROGRAMS = {
+    'nest11': _nest(11),
+    'nest12': _nest(12),
+    'nest13': _nest(13),
     'tiny': ';\nl: ;l\n',
     'consts-n-nostl': 'n = 5\n;n\nq: ;q\n',
     'labels-n-nostl': ';n\nn: ;n\n',
@@ -48,6 +56,7 @@ FAILING = {
     'duplicate-label': 'stl.startup\nl:\nl:\nstl.loop\n',
     'expression-error': 'stl.startup\nbad = 1/0\nstl.loop\n',
     'recursion': 'def r {\n r\n}\nstl.startup\nr\n',
+    'recursion-mutual': 'def r {\n q\n}\ndef q {\n rep(1, i) r\n}\nstl.startup\nr\n',
     'const-then-error': 'n = 9\nx = 1\nd = 2\nstl.startup\nno.such.macro\n',
 }
 
